@@ -10,3 +10,4 @@ Definition violations_C07 := failing job_ok.
 Definition violations_C08 := failing suggestions_ok.
 Definition violations_C16 := failing resume_ok.
 Definition violations_C16w := failing resume_ok_modulo_f14.
+Definition violations_C16x := failing resume_ok_modulo_f18.
